@@ -501,13 +501,15 @@ def rule_E1(ctx, repo, eng):
 
 def size_source(repo, eng, fi, arg):
     """where does a non-constant ser_read size come from? -> ('ok'|'bad'|'unknown', text)"""
-    if isinstance(arg, ast.Name):
-        name = arg.id
-        if name in fi.params and fi.qualname == 'bitcoin.core.serialize.ser_read':
-            return ('ok', 'parameter')
-        for st in walk_no_nested(fi.node):
-            if isinstance(st, ast.Assign) and any(isinstance(t, ast.Name) and t.id == name for t in st.targets):
-                v = st.value
+    if isinstance(arg, (ast.Name, ast.Call, ast.Subscript)) and not (isinstance(arg, ast.Name) and arg.id in fi.params and fi.qualname == 'bitcoin.core.serialize.ser_read'):
+        if isinstance(arg, ast.Name):
+            name = arg.id
+            defs_ = [st.value for st in walk_no_nested(fi.node) if isinstance(st, ast.Assign) and any(isinstance(t, ast.Name) and t.id == name for t in st.targets)]
+        else:
+            name = norm(arg)[:40]
+            defs_ = [arg]  # the size is computed in place
+        for v in defs_:
+            if True:
                 if isinstance(v, ast.Call) and isinstance(v.func, ast.Attribute) and v.func.attr in ('stream_deserialize', 'deserialize'):
                     rv = repo.fold(v.func.value, fi.module, cls=fi.cls)
                     if isinstance(rv, ClassRef) and rv.info is eng.varint:
@@ -522,6 +524,8 @@ def size_source(repo, eng, fi, arg):
                         return ('bad', 'size `%s` is read with signed format %r: a negative value reaches f.read(n) and consumes the rest of the stream' % (name, sc[1]))
                 return ('unknown', 'size `%s` assigned from `%s`' % (name, norm(v)[:60]))
         return ('unknown', 'size `%s` has no visible definition' % name)
+    if isinstance(arg, ast.Name):
+        return ('ok', 'parameter')
     if isinstance(arg, ast.Attribute) and arg.attr == 'size':
         return ('ok', 'Struct.size')
     return ('unknown', 'size expression `%s`' % norm(arg))
